@@ -57,6 +57,31 @@ CLAIMED = {
         "note": TRUSTED,
         "technique": "static analysis: exhaustive decision tables over enum-kind domains from MIR paths; function-reference graph and constant-set comparison for the grammar",
     },
+    "C09": {
+        "text": "Static structure / decision rules over the price repository: the as-of predicate is record_date <= date on "
+                "all three orderings, the looked-up index is partition_point-1 of the same vector under a non-zero guard "
+                "and the staleness passed on is date - record_date; NaivePriceRepository is constructed only after every "
+                "rate vector was sorted unconditionally (no selecting adaptor, no conditional sort) and only the builder "
+                "pushes rates; a higher-priority source clears lower-priority rates exactly under stored < new with the "
+                "derived order Ledger < PriceDB, both directions are stored, loaders use the right source; chain cost is the "
+                "derived lexicographic (ledger hops, hops, staleness) and extend updates it as specified; convert_single is "
+                "identity / value*rate / RateNotFound; conversion errors are propagated; neighbours are relaxed in sorted "
+                "order.  Search optimality and the rate product are not decided.",
+        "design_ref": "DESIGN.md §4 C09",
+        "note": TRUSTED,
+        "technique": "static analysis: ADT-table order checks, decision tables over orderings, typestate (sorted-before-lookup) via who-may-construct + dominance, error-chain analysis",
+    },
+    "C10": {
+        "text": "Narrow static claim: a missing rate is an error on every path from its creation to exit(1) (never dropped, "
+                "defaulted, matched away or skipped); each strategy converts the right amount at the right date into the "
+                "query's target; convert_amount converts and adds every commodity with no selecting adaptor; amounts already "
+                "in the target are returned unchanged; the fast path is chosen only without range and without historical "
+                "conversion; nothing is rounded inside Ledger::balance before the final Balance::round.  Completeness and "
+                "linearity of the sums as numbers are not decided.",
+        "design_ref": "DESIGN.md §4 C10, §3 E9/E7",
+        "note": TRUSTED,
+        "technique": "static analysis: error-chain consumption over MIR, operand provenance per strategy arm, loop must-pass rules",
+    },
     "C13": {
         "text": "Static, all-sites: every place where HashMap/HashSet iteration order enters the three crates "
                 "(std iterators, the local wrapper types AmountIter / intern::Iter, local functions returning them, "
